@@ -712,3 +712,81 @@ def c18(ctx):
     ctx.cov["rule"] = ("one evaluation = one behaviour of Sha2pc.tla (pattern of restarts, re-encodings and at most one foreign/malformed "
                        "message) run on the real rounds with all messages as bytes, or one mutated message; non-trivial = has optional steps")
     ctx.check_drift()
+
+
+# ---------------------------------------------------------------------- C10
+GMWPOOL_CFG = """SPECIFICATION Spec
+CONSTANTS
+  NParties = %d
+  W = 2
+  LowWater = 1
+  BatchWords <- %s
+  Gets <- %s
+  MaxBatches = %d
+  GetTakesFullCount = %s
+INVARIANT Safety
+%s
+CHECK_DEADLOCK FALSE
+"""
+
+
+@prop("C10")
+def c10(ctx):
+    thorough = ctx.tier == "thorough"
+    ctx.build()
+    ctx.assumptions += ["loopback TCP; the parties are goroutines of one process with real sockets",
+                        "TLC checks the share algebra per bit; 64-bit words of real runs are checked in full by the harness and, "
+                        "for sampled bit positions incl. word boundaries, by TLC"]
+    # (M) algebra of dealing and of an AND batch over all share/mask values
+    ctx.tlc_expect_ok("Gmw", "Gmw_mc.cfg", name="gmw-mc-2", cfg_text="SPECIFICATION Spec\nCONSTANT P = 2\nINVARIANT Safety\nCHECK_DEADLOCK FALSE\n")
+    if thorough:
+        ctx.tlc_expect_ok("Gmw", "Gmw_mc.cfg", name="gmw-mc-3", timeout=3400, heap="16g",
+                          cfg_text="SPECIFICATION Spec\nCONSTANT P = 3\nINVARIANT Safety\nCHECK_DEADLOCK FALSE\n")
+        ctx.tlc_expect_ok("Gmw", "Gmw_mc.cfg", name="gmw-sim-4", mode="sim", sim="num=20000", depth=6, workers=8, timeout=3400,
+                          cfg_text="SPECIFICATION Spec\nCONSTANT P = 4\nINVARIANT Safety\nCHECK_DEADLOCK FALSE\n")
+    else:
+        ctx.tlc_expect_ok("Gmw", "Gmw_mc.cfg", name="gmw-sim-3", mode="sim", sim="num=3000", depth=6, workers=4, timeout=1500,
+                          cfg_text="SPECIFICATION Spec\nCONSTANT P = 3\nINVARIANT Safety\nCHECK_DEADLOCK FALSE\n")
+    # (M) the triple pool: producer/consumers of 2-3 parties
+    for n, bw, gets, mb in ((3, "MCBatchA", "MCGetsA", 4), (2, "MCBatchB", "MCGetsB", 8)) + (((3, "MCBatchB", "MCGetsB", 8),) if thorough else ()):
+        ctx.tlc_expect_ok("GmwPool", "GmwPool_mc.cfg", name="gmwpool-%d-%s" % (n, bw), timeout=3400,
+                          cfg_text=GMWPOOL_CFG % (n, bw, gets, mb, "FALSE", "PROPERTY AllServed"))
+    r = ctx.tlc("GmwPool", "GmwPool_mc.cfg", name="gmwpool-guard", cfg_text=GMWPOOL_CFG % (3, "MCBatchA", "MCGetsA", 4, "TRUE", ""))
+    if r["status"] != "invariant":
+        raise Broken("GmwPool.tla does not reject a Get that re-requests the full count after a partial take")
+    ctx.cov["spec_rejects_deviations"] = ["get-takes-full-count"]
+    # (T) real runs
+    trace = os.path.join(ctx.tmp, "gmw_trace.ndjson")
+    res = os.path.join(ctx.tmp, "c10res.ndjson")
+    ctx.run_vh(["c10", "run", trace, res, 64 if thorough else 12], timeout=3400)
+    n = ctx.absorb(res)
+    rows = read_ndjson(trace)
+    ctx.cov["trace_events"] = len(rows)
+    t = ctx.tlc("GmwTrace", "GmwTrace.cfg", mode="trace", files=[trace], timeout=3000)
+    if t["status"] == "invariant" and t.get("which") in ("TripleOK", "AndOK"):
+        ctx.violation("trace:" + t["which"], "recorded shares of a real run violate GmwTrace.%s" % t["which"], t["out"][-2000:])
+    elif t["status"] == "invariant":
+        ctx.drift.append("GmwTrace.%s fails: the shares no longer follow the formulas of Gmw.tla" % t.get("which"))
+    elif t["status"] != "ok":
+        raise Broken("GmwTrace failed: %s\n%s" % (t["status"], t["out"][-3000:]))
+    else:
+        ctx.cov["traces_validated_against_impl"] += n
+    # the triple pool alone: identical Get sequences at different paces
+    pres = os.path.join(ctx.tmp, "c10pool.ndjson")
+    ctx.run_vh(["c10", "pool", pres, 12 if thorough else 3], timeout=3400)
+    ctx.absorb(pres)
+    # binding self-test: flip one recorded c share
+    r2 = [json.loads(json.dumps(x)) for x in rows]
+    i = next((i for i, x in enumerate(r2) if x["ev"] == "bit"), None)
+    if i is not None:
+        r2[i]["c"][0] ^= 1
+        p2 = os.path.join(ctx.tmp, "selftest", "gmw_trace.ndjson")
+        os.makedirs(os.path.dirname(p2), exist_ok=True)
+        write_ndjson(p2, r2)
+        x = ctx.tlc("GmwTrace", "GmwTrace.cfg", mode="trace", files=[p2], name="gmw-selftest")
+        if x["status"] != "invariant":
+            raise Broken("binding self-test: GmwTrace accepted a flipped triple share")
+        ctx.cov["binding_selftest"] = {"flipped-c-share": x["status"]}
+    ctx.cov["rule"] = ("one evaluation = one complete GMW run (2..5 parties, random start delays) on a compiled circuit; non-trivial = 3 or "
+                       "more parties; every AND batch of every run is checked in full (all 64-bit words) by the harness")
+    ctx.check_drift()
